@@ -337,8 +337,16 @@ def t3_build_core(case):
     flag = v in (1, 3, 7)
     zero_last = v in (4, 5, 6, 7)
 
+    mixed = cplx_blocks and (case['k'] // 8) % 2 == 0      # real and complex blocks in one list (the first blocks real): promotion must keep them
+    if mixed:
+        r1, r2 = max(r1, 2), max(r2, 2)
+
     def blk():
+        if mixed and cplx_blocks:
+            blk.count += 1
+            return spec.rnd(rng, (m, n), 'real' if blk.count <= 1 or rng.integers(2) else 'complex')
         return spec.rnd(rng, (m, n), 'complex' if cplx_blocks else 'real')
+    blk.count = 0
     if v % 2 == 0 or True:
         ml = [[blk() if rng.integers(4) else 0 for _ in range(r2)] for _ in range(r1)]
         if not any(isinstance(x, np.ndarray) for row in ml for x in row):
@@ -349,7 +357,13 @@ def t3_build_core(case):
                 ml[0][0] = blk()
                 if r1 == 1 and r2 == 1:
                     return []
-        want = np.zeros((r1, m, n, r2), dtype=complex if (cplx_blocks or flag) else float)
+        if mixed:       # guaranteed: a real block strictly before (row-major) a complex block
+            ml[0][0] = spec.rnd(rng, (m, n), 'real')
+            ml[0][1] = spec.rnd(rng, (m, n), 'complex')
+            if r1 > 1:
+                ml[1][0] = spec.rnd(rng, (m, n), 'real')
+        any_cplx = any(isinstance(x, np.ndarray) and np.iscomplexobj(x) for row in ml for x in row)
+        want = np.zeros((r1, m, n, r2), dtype=complex if (any_cplx or flag) else float)
         for i in range(r1):
             for j in range(r2):
                 if isinstance(ml[i][j], np.ndarray):
@@ -357,7 +371,7 @@ def t3_build_core(case):
         ok, core = c.guarded('post:value', lambda: ttm.build_core(ml, iscomplex=flag))
         if ok:
             c.close('post:value', core, want)
-            c.add('post:kind', np.iscomplexobj(core) == (cplx_blocks or flag), 'dtype %s' % core.dtype)
+            c.add('post:kind', np.iscomplexobj(core) == (any_cplx or flag), 'dtype %s' % core.dtype)
     # vector form
     cv = Clauses(PID, 'build_core_vector', case, modfunc=('vt.props.c02', 't3_build_core'))
     vl = [blk() if rng.integers(4) else 0 for _ in range(r1)]
@@ -367,12 +381,16 @@ def t3_build_core(case):
         vl[-1] = 0
         if not any(isinstance(x, np.ndarray) for x in vl):
             vl[0] = blk()
-    wantv = np.zeros((r1, m, n, 1), dtype=complex if (cplx_blocks or flag) else float)
+    if mixed:
+        vl[0] = spec.rnd(rng, (m, n), 'real')
+        vl[1] = spec.rnd(rng, (m, n), 'complex')
+    any_cplx_v = any(isinstance(x, np.ndarray) and np.iscomplexobj(x) for x in vl)
+    wantv = np.zeros((r1, m, n, 1), dtype=complex if (any_cplx_v or flag) else float)
     for i in range(r1):
         if isinstance(vl[i], np.ndarray):
             wantv[i, :, :, 0] = vl[i]
     ok, core = cv.guarded('post:value', lambda: ttm.build_core(vl, iscomplex=flag))
     if ok:
         cv.close('post:value', core, wantv)
-        cv.add('post:kind', np.iscomplexobj(core) == (cplx_blocks or flag), 'dtype %s' % core.dtype)
+        cv.add('post:kind', np.iscomplexobj(core) == (any_cplx_v or flag), 'dtype %s' % core.dtype)
     return c.out + cv.out
